@@ -12,7 +12,7 @@ import numpy as np
 from hypothesis import strategies as st
 
 from .. import gen, genheat
-from ..recipe import abbreviate, build, solve
+from ..recipe import PRELUDES, solve_after_prelude, abbreviate, build, solve
 from ..refphys import RefFluid, branch_state
 from ..runner import Finding, Outcome, derive_seed, run_given
 
@@ -36,10 +36,12 @@ def case_strategy(draw, tier):
     if draw(st.integers(0, 5)) == 0:
         rec = draw(genheat.heat_net(max_n=4, max_sections=1, feeders=["cpp", "eg"], labels=draw(st.booleans())))
         opts = draw(genheat.heat_options(modes=("bidirectional",)))
-        return {"recipe": rec, "options": opts}
+        return {"recipe": rec, "options": opts, "prelude": None}
     rec, opts = draw(gen.hyd_case(max_n=9 if tier == "quick" else 25, tight=True, allow_ctrl=draw(st.booleans())))
     opts["mode"] = "hydraulics"
-    return {"recipe": rec, "options": opts}
+    # one case in three is calculated on a net object with a history (see recipe.solve_after_prelude)
+    prelude = draw(st.sampled_from([None, None, None, None] + PRELUDES[:3] * 2 + PRELUDES[3:]))
+    return {"recipe": rec, "options": opts, "prelude": prelude}
 
 
 def _close(a, b, rel, abs_=0.0):
@@ -85,8 +87,7 @@ def evaluate(case):
     import pandapipes as pp
     from pandapipes.component_models import Pipe
     rec, opts = case["recipe"], case["options"]
-    net = build(rec)
-    r = solve(net, **opts)
+    net, r = solve_after_prelude(rec, opts, case.get("prelude"))
     if not r.ok:
         return Outcome(discard=r.status)
     fl = RefFluid.get(rec["fluid"])
@@ -97,7 +98,8 @@ def evaluate(case):
     hj = net.junction.height_m
     pj = net.res_junction.p_bar
     feats_best = 0
-    labels = {"gas" if fl.is_gas else "liquid", model, "mode:" + opts["mode"], "numba" if opts.get("use_numba", True) else "numpy"}
+    labels = {"gas" if fl.is_gas else "liquid", model, "mode:" + opts["mode"], "numba" if opts.get("use_numba", True) else "numpy",
+              "history:" + str(case.get("prelude"))}
     nbr = 0
     pi_at = {}
     if "valve" in net and len(net.valve):
